@@ -100,12 +100,6 @@ package parse
 //@   ensures empty: len(str) == 0 ==> result
 //@   loop 1 invariant seen: 0 <= rangepos() && (rangepos() >= 1 && len(str) == 1 ==> punctByte(str[0]))
 
-// isAlpha on ASCII strings: true iff every byte is a letter.
-//@ func parse.isAlpha
-//@   requires ascii: forall i :: 0 <= i && i < len(s) ==> s[i] < 128
-//@   ensures spec: result == (forall i :: 0 <= i && i < len(s) ==> letterByte(s[i]))
-//@   loop 1 invariant seen: 0 <= rangepos() && rangepos() <= len(s) && (forall i :: 0 <= i && i < rangepos() ==> letterByte(s[i]))
-
 //@ func parse.(*lexer).emit
 //@   requires linv(l) && l.mode != modeClosed
 //@   ensures inv: linv(l)
@@ -156,8 +150,12 @@ package parse
 //@   ensures not: !result ==> l.pos == old(l.pos)
 // C14: an alphabetic operator is recognised exactly when the byte after it is not a name character
 // (any blank, a bracket, a delimiter or the end of input) — independent of the kind of whitespace.
-//@   asserts boundary: (forall i :: 0 <= i && i < len(op) ==> letterByte(op[i])) && len(op) > 0 ==>
-//@+      (result == (old(l.pos) + len(op) >= len(l.input) || !nameByte(l.input[old(l.pos) + len(op)])))
+//@   asserts boundary: len(op) > 0 && letterByte(op[len(op) - 1]) && result ==>
+//@+      (old(l.pos) + len(op) >= len(l.input) || !nameByte(l.input[old(l.pos) + len(op)]))
+// C14: ... and no operator that ends in a letter ("not in", "is not", "starts with", "b-and") runs into a name
+// character: "not in_stock" is the operator not and the name in_stock, however many blanks separate them
+// ... and a one-word operator that ends in a letter is recognised whenever it does not
+//@   asserts taken1: len(op) > 0 && letterByte(op[len(op) - 1]) && indexof(op, " ") < 0 && (old(l.pos) + len(op) >= len(l.input) || !nameByte(l.input[old(l.pos) + len(op)])) ==> result
 
 //@ func parse.lexSpace
 //@   implements functype:parse.stateFn
@@ -558,6 +556,9 @@ package parse
 // ... and there is no other way to a unary node: every successful return of the operator arm has parsed that operand
 //@   asserts@tokenOperator operand: err == nil ==> called("t.parseExprPrec(op.precedence)") && istype(r0, "*UnaryExpr")
 // C20: a literal, a name, a unary operator, a group, a hash or an array carries the position of its first token
+// C14: a number literal always parses: a dot after it is its fraction point only when digits follow ("a.0.b" is
+// a.0 followed by .b, with or without a blank before the second dot)
+//@   asserts@tokenNumber number: err == nil
 //@   asserts@tokenNumber anchor: err == nil ==> istype(r0, "*NumberExpr") && unbox(r0, "*NumberExpr").Pos == tok.Pos
 //@   asserts@tokenOperator anchor: err == nil ==> istype(r0, "*UnaryExpr") && unbox(r0, "*UnaryExpr").Pos == tok.Pos
 //@   asserts@tokenParensOpen anchor: err == nil ==> istype(r0, "*GroupExpr") && unbox(r0, "*GroupExpr").Pos == tok.Pos
